@@ -285,6 +285,156 @@ func runC13(c *Ctx) {
 	c.Rule("O13.6", "decode errors propagate: every call returning an error inside the ammo decoders is tested and its error returned (wrapped or not) on the non-nil edge")
 	c.Rule("O13.7", "end of input is told apart from a truncated entry: errors.Is(err, io.EOF) is never applied to the result of a pandora helper that wraps read errors")
 	c13Support(c)
+	c.Rule("O13.8", "an ammo file without entries is an error whatever `passes` is: in the http decoders every return of the pass-limit sentinel is dominated by the test that something has been decoded (the counter / list whose emptiness yields ErrNoAmmo is known non-empty) - siblings must agree: the emptiness test comes before the pass-limit test at the end of a pass")
+	c13EmptyBeforePassLimit(c)
+}
+
+// c13EmptyBeforePassLimit decides O13.8.
+func c13EmptyBeforePassLimit(c *Ctx) {
+	P := c.P
+	sp := P.SSAPkg("components/providers/http/decoders")
+	if sp == nil {
+		c.Anchor("O13.8", "package components/providers/http/decoders")
+		return
+	}
+	noAmmo, _ := sp.Members["ErrNoAmmo"].(*ssa.Global)
+	passLimit, _ := sp.Members["ErrPassLimit"].(*ssa.Global)
+	if noAmmo == nil || passLimit == nil {
+		c.Anchor("O13.8", "decoders.ErrNoAmmo / ErrPassLimit")
+		return
+	}
+	var fns []*ssa.Function
+	for _, f := range PkgFuncs(sp) {
+		if IsProdFile(P.File(f.Pos())) {
+			fns = append(fns, f)
+		}
+	}
+	// what "nothing decoded" is tested on: the fields X with a `return ErrNoAmmo` under X == 0 / len(X) == 0
+	subj := func(v ssa.Value) *types.Var {
+		v = Strip(v)
+		if cl, ok := v.(*ssa.Call); ok && IsBuiltinCall(cl, "len") {
+			v = Strip(cl.Call.Args[0])
+		}
+		for _, r := range Roots(v, false) {
+			if fv, _ := FieldOf(r); fv != nil {
+				return fv
+			}
+		}
+		return nil
+	}
+	zero := func(v ssa.Value) bool { k, ok := ConstInt(v); return ok && k == 0 }
+	emptiness := map[*types.Var]bool{}
+	returnsOf := func(g *ssa.Global, f func(fn *ssa.Function, r *ssa.Return)) {
+		for _, fn := range fns {
+			for _, b := range fn.Blocks {
+				r, ok := b.Instrs[len(b.Instrs)-1].(*ssa.Return)
+				if !ok || len(r.Results) == 0 {
+					continue
+				}
+				if DerivesAny(r.Results[len(r.Results)-1], false, IsGlobalLoad(g)) && !DerivesAny(r.Results[len(r.Results)-1], false, func(v ssa.Value) bool { _, isCall := v.(*ssa.Call); return isCall }) {
+					f(fn, r)
+				}
+			}
+		}
+	}
+	returnsOf(noAmmo, func(fn *ssa.Function, r *ssa.Return) {
+		for _, f := range CmpFactsAt(r) {
+			if f.Op != token.EQL {
+				continue
+			}
+			for _, pr := range [][2]ssa.Value{{f.X, f.Y}, {f.Y, f.X}} {
+				if zero(pr[1]) {
+					if fv := subj(pr[0]); fv != nil {
+						emptiness[fv] = true
+					}
+				}
+			}
+		}
+	})
+	c.Floor("O13.8", "fields whose emptiness yields ErrNoAmmo", len(emptiness), 2)
+	n := 0
+	knownNonEmpty := func(at ssa.Instruction) bool {
+		for _, f := range CmpFactsAt(at) {
+			for _, pr := range [][2]ssa.Value{{f.X, f.Y}, {f.Y, f.X}} {
+				fv := subj(pr[0])
+				if fv == nil || !emptiness[fv] {
+					continue
+				}
+				op := f.Op
+				if pr[0] != f.X {
+					op = flipCmp(op)
+				}
+				if k, ok := ConstInt(pr[1]); ok && ((op == token.NEQ && k == 0) || (op == token.GTR && k >= 0) || (op == token.GEQ && k >= 1)) {
+					return true
+				}
+			}
+		}
+		return false
+	}
+	returnsOf(passLimit, func(fn *ssa.Function, r *ssa.Return) {
+		n++
+		nonEmpty := knownNonEmpty(r)
+		if !nonEmpty {
+			// ... or the pass counter it was compared with only ever advances where something was decoded
+			// (the emptiness test sits before the increment, the limit test at the top of the next round)
+			var counters []*types.Var
+			for _, f := range CmpFactsAt(r) {
+				fx, fy := subj(f.X), subj(f.Y)
+				if fx != nil && fy != nil && fy.Name() == "Passes" && !emptiness[fx] {
+					counters = append(counters, fx)
+				}
+				if fx != nil && fy != nil && fx.Name() == "Passes" && !emptiness[fy] {
+					counters = append(counters, fy)
+				}
+			}
+			for _, cv := range counters {
+				all, any := true, false
+				// (the advances made by this decoder: the counter may live in a struct shared by the sibling decoders)
+				for _, g := range FindFuncs(fn, 2, func(g *ssa.Function) bool { return PkgOf(g) == PkgOf(fn) }) {
+					EachInstr(g, func(in ssa.Instruction) {
+						st, ok := in.(*ssa.Store)
+						if !ok {
+							return
+						}
+						fa, ok := st.Addr.(*ssa.FieldAddr)
+						if !ok {
+							return
+						}
+						if fv, _ := FieldOf(fa); fv != cv {
+							return
+						}
+						if _, isK := ConstInt(st.Val); isK {
+							return // reset
+						}
+						any = true
+						if !knownNonEmpty(st) {
+							all = false
+						}
+					})
+				}
+				if any && all {
+					nonEmpty = true
+				}
+			}
+		}
+		c.Check(nonEmpty, "O13.8", fk(fn)+":no-ammo-test-before-pass-limit", r.Pos(),
+			"ErrPassLimit is returned without knowing that an entry was decoded: with passes: 1 an ammo file without entries ends the run cleanly instead of with ErrNoAmmo (the other decoders test emptiness first)")
+	})
+	c.Floor("O13.8", "returns of ErrPassLimit in the decoders", n, 4)
+}
+
+func flipCmp(op token.Token) token.Token {
+	switch op {
+	case token.LSS:
+		return token.GTR
+	case token.GTR:
+		return token.LSS
+	case token.LEQ:
+		return token.GEQ
+	case token.GEQ:
+		return token.LEQ
+	}
+	return op
 }
 
 func init() {
